@@ -701,7 +701,6 @@ func failKind(e string) string {
 	return strings.ReplaceAll(e, " ", "-")
 }
 
-
 // ---------------------------------------------------------------------------
 // isolated execution: statements that may exhaust memory or never return are evaluated in-process by worker
 // children of this executable running under an address-space limit; a worker prints "S <i>" before and
